@@ -81,6 +81,9 @@ def isNan : FVal → Bool
   | .float _ mag => mag == "nan"
   | _ => false
 
+/-- `repr` of a complex spells an infinite or nan part as the *names* `inf` / `nan`. -/
+def nonFiniteRepr (r : String) : Bool := (r.splitOn "inf").length > 1 || (r.splitOn "nan").length > 1
+
 /-- The literal node chosen for a value (`none`: no node can be built). -/
 def newNode (orc : Oracle) : FVal → Option Expr
   | .bool b => some (.constant (if b then .true_ else .false_))
@@ -90,7 +93,8 @@ def newNode (orc : Oracle) : FVal → Option Expr
   | .float neg mag =>
     if neg then some (.unaryOp .uSub (.constant (.float mag))) else some (.constant (.float mag))
   | .complex r =>
-    if r.startsWith "-" then
+    if nonFiniteRepr r then none          -- no literal exists; never evaluated
+    else if r.startsWith "-" then
       match orc.neg.lookup ("c:" ++ r) with
       | some k => (match parseKey k with
           | some (.complex r') => some (.unaryOp .uSub (.constant (.complex r')))
